@@ -59,6 +59,10 @@ using SH = shape_c<6>;
 using SH = shape_c<2, 2, 2>;
 #elif SHAPE_ID == 6
 using SH = shape_c<3, 1>;
+#elif SHAPE_ID == 7
+using SH = shape_c<3, 2>;
+#elif SHAPE_ID == 8
+using SH = shape_c<4, 1, 2>;
 #endif
 constexpr size_t D = SH::dim;
 constexpr size_t N = SH::numel;
